@@ -216,6 +216,21 @@ let run_op (c : cache) (op : string) (args : string list) (qs : string list arra
                let first = (match asg with (_, r) :: _ -> show_verid (r_verid r) | [] -> "0,0,0") in
                let gs = List.sort compare (List.map (fun (v, ks) -> show_verid v ^ "=" ^ String.concat "/" (List.map hex_of_bytes ks)) (groups_of asg)) in
                "ok " ^ first ^ " " ^ String.concat ";" gs)
+  | "groupf" ->
+      (* GroupKeysByRegion with tikv.equalRegionStartKey as filter; first = region of key 0 if that key is kept, else the zero id *)
+      let keys = if a 0 = "" then [] else List.map bytes_of_hex (split_on ';' (a 0)) in
+      fin (group_assign_f pd budget eq_start fuel t0 c keys None [])
+        (fun r -> match r with
+           | Err _ -> "err"
+           | Ok asg ->
+               let first = (match keys with
+                 | k0 :: _ ->
+                     (match group_assign_f pd0 budget eq_start fuel t0 c [k0] None [] with
+                      | ((Ok ((_, r) :: _), _), _) -> show_verid (r_verid r)
+                      | _ -> "0,0,0")
+                 | [] -> "0,0,0") in
+               let gs = List.sort compare (List.map (fun (v, ks) -> show_verid v ^ "=" ^ String.concat "/" (List.map hex_of_bytes ks)) (groups_of asg)) in
+               "ok " ^ first ^ " " ^ String.concat ";" gs)
   | "listids" -> fin (list_region_ids pd budget fuel t0 c (bytes_of_hex (a 0)) (bytes_of_hex (a 1)) [])
         (fun r -> match r with Err _ -> "err" | Ok rs -> "ok " ^ String.concat ";" (List.map (fun r -> string_of_int (ni r.r_id)) rs))
   | "loadrange" -> fin (load_regions_in_range pd budget limit128 fuel t0 c (bytes_of_hex (a 0)) (bytes_of_hex (a 1)) []) res_locs
